@@ -107,6 +107,14 @@ Continue(s) == IF s.done \/ s.vm.status # "running" THEN s ELSE Continue(Step(s)
 \* exec: run the assembled operations on the live state, position and script untouched
 RECURSIVE ExecLoop(_, _)
 ExecLoop(ctx, vm) == IF vm.status # "running" \/ vm.pc >= Len(ctx.script) THEN vm ELSE ExecLoop(ctx, ExecOp(ctx, vm))
+\* the state reached by the operations of an exec that precede the first failing one
+RECURSIVE ExecLoopPrefix(_, _)
+ExecLoopPrefix(ctx, vm) == IF vm.pc >= Len(ctx.script) THEN vm
+                           ELSE LET n == ExecOp(ctx, vm) IN IF n.status # "running" THEN vm ELSE ExecLoopPrefix(ctx, n)
+ExecPrefix(s, ops) ==
+    LET ctx2 == [s.ctx EXCEPT !.script = ops]
+        v == ExecLoopPrefix(ctx2, [s.vm EXCEPT !.pc = 0])
+    IN [s EXCEPT !.vm = [v EXCEPT !.pc = s.vm.pc, !.cbegin = s.vm.cbegin, !.cspos = s.vm.cspos, !.oppos = s.vm.oppos]]
 Exec(s, ops) ==
     LET ctx2 == [s.ctx EXCEPT !.script = ops]
         v == ExecLoop(ctx2, [s.vm EXCEPT !.pc = 0])
